@@ -102,7 +102,11 @@ pub trait MapValidVec<T: IsNone>: Vec1View<T> {
             // lag 0: x[i] / x[i] - 1, null for a null element or a zero base
             _ => Box::new(self.titer().map(|v| {
                 let v: f64 = v.cast();
-                if v.not_none() && (v != 0.) { 0. } else { f64::NAN }
+                if v.not_none() && (v != 0.) {
+                    0.
+                } else {
+                    f64::NAN
+                }
             })),
         }
     }
@@ -399,7 +403,14 @@ pub trait MapValidVec<T: IsNone>: Vec1View<T> {
                 } else {
                     vec.sort_unstable_by(|a, b| a.sort_cmp_rev(b)).unwrap();
                 }
-                return Box::new(vec.into_iter().take(kth + 1));
+                // the n valid elements come first (nulls sort last); pad with nulls up to k+1 entries
+                return Box::new(
+                    vec.into_iter()
+                        .take(n)
+                        .chain(std::iter::repeat(T::none()))
+                        .take(kth + 1)
+                        .to_trust(kth + 1),
+                );
             }
         }
         let mut out_c: Vec<_> = self.titer().collect_trusted_vec1(); // clone the array
